@@ -226,6 +226,12 @@ def do_get(w, fam, key, root):
     return fn(*key, root)
 
 
+def _same_int(a, b):
+    if isinstance(a, SInt) and isinstance(b, SInt):
+        return a.i.t.eq(b.i.t) or bool(a.i == b.i)
+    return a == b
+
+
 def same_value(fam, written, read, key=None):
     kind = FAM[fam][4]
     if kind == 'wl':
@@ -239,14 +245,15 @@ def same_value(fam, written, read, key=None):
     if kind == 'bcx':
         # list of (metastable, rate): the written metastable must be present with the written rate
         for m, rate in read:
-            if isinstance(m, SInt) or True:
-                if all(rate[f] == written[f] for f in written):
-                    return True
+            if key is not None and not _same_int(m, key[1]):
+                continue
+            if all(rate[f] == written[f] for f in written):
+                return True
         return False
     raise KeyError(kind)
 
 
-@harness('C06', name='round_trip', universe=_universe,
+@harness('C06', name='round_trip', universe=_universe, timeout_ms=60000,
          tiers={'quick': [{'fam': f, 'ints': i} for f in FAMILIES for i in (False, True)],
                 'thorough': [{'fam': f, 'ints': i} for f in FAMILIES for i in (False, True)]},
          functions=[R + m for m in MODS] + ['cherab.core.utility.recursivedict.RecursiveDict', R + 'utility.encode_transition'],
@@ -310,7 +317,17 @@ def round_trip(ex, uni, fam, ints):
         miss = True
     ex.cover('other-key-miss')
     if fam == 'beam_cx' and j == 1:
-        pass    # the donor metastable is not part of the read key (all metastables of a transition are returned)
+        # the donor metastable is not part of the read key: all metastables written for the transition are returned together
+        v3 = make_value(w, fam)
+        do_add(w, fam, k2, v3, root)
+        try:
+            got = do_get(w, fam, k1, root)
+            ok1 = same_value(fam, v2, got, k1)
+            ok2 = same_value(fam, v3, got, k2)
+        except RuntimeError:
+            ok1 = ok2 = False
+        ex.prove(ok1, 'writing-another-metastable-keeps-the-first-one')
+        ex.prove(ok2, 'the-other-metastable-is-returned-with-its-own-value')
     else:
         ex.prove(miss, 'key-never-written-raises-RuntimeError')
         v3 = make_value(w, fam)
@@ -362,7 +379,7 @@ def cross_family(ex, uni, fam):
     ex.sample({'written_family': fam, 'files': [str.__repr__(p) for p, c in w.env.fs.files][:2]})
 
 
-@harness('C06', name='free_keys', universe=_universe,
+@harness('C06', name='free_keys', universe=_universe, timeout_ms=90000,
          tiers={'quick': [{'fam': f} for f in FAMILIES], 'thorough': [{'fam': f} for f in FAMILIES]},
          functions=[R + m for m in MODS], cover=['hit', 'miss'],
          bounds={'keys': 'two unconstrained symbolic keys of the same family (for the two 4-component path families the first component '
